@@ -4,6 +4,7 @@ import (
 	"fmt"
 	"strings"
 	"sync"
+	"time"
 
 	"github.com/fluffle/goirc/client"
 
@@ -14,16 +15,18 @@ import (
 // C09: outgoing lines reach the server in order, once each.
 
 type c09Params struct {
-	Senders int  // concurrent user tasks
-	Lines   int  // lines per user task
-	Events  int  // incoming events, each answered by a foreground handler...
-	HLines  int  // ...with this many lines
-	Slow    bool // server reads slowly: 64-byte pipe drained line by line by a server task
-	ChanCap int  // 0 real (32) | 1 | 2
-	Overlap bool // senders start while the registration lines are still in flight
-	Pings   int  // server PINGs arriving meanwhile (answered by the built-in handler)
-	HPong   bool // the foreground handler sends a PONG of its own between its first and second line
-	SrvErr  bool // the server sends an ERROR line (and keeps the connection open) while the senders are at work
+	Senders  int           // concurrent user tasks
+	Lines    int           // lines per user task
+	Events   int           // incoming events, each answered by a foreground handler...
+	HLines   int           // ...with this many lines
+	Slow     bool          // server reads slowly: 64-byte pipe drained line by line by a server task
+	ChanCap  int           // 0 real (32) | 1 | 2
+	Overlap  bool          // senders start while the registration lines are still in flight
+	Pings    int           // server PINGs arriving meanwhile (answered by the built-in handler)
+	HPong    bool          // the foreground handler sends a PONG of its own between its first and second line
+	Timeout0 bool          // Config.Timeout = 0 ("wait indefinitely")
+	Pause    time.Duration // > 0: the server does not read at all for this long after the registration (longer than any Config.Timeout), then reads everything
+	SrvErr   bool          // the server sends an ERROR line (and keeps the connection open) while the senders are at work
 }
 
 func (p c09Params) name() string {
@@ -33,6 +36,12 @@ func (p c09Params) name() string {
 	}
 	if p.SrvErr {
 		n += "/server-error-line"
+	}
+	if p.Timeout0 {
+		n += "/timeout=0"
+	}
+	if p.Pause > 0 {
+		n += fmt.Sprintf("/server-pause=%s", p.Pause)
 	}
 	return n
 }
@@ -53,15 +62,19 @@ func c09Scenario(p c09Params) *explore.Scenario {
 	sc := &explore.Scenario{
 		Family: "sendorder",
 		Name:   p.name(),
-		Params: map[string]interface{}{"senders": p.Senders, "lines": p.Lines, "events": p.Events, "hlines": p.HLines, "slow": p.Slow, "chancap": p.ChanCap, "overlap": p.Overlap, "pings": p.Pings, "hpong": p.HPong, "server_error": p.SrvErr},
-		Opt:    vx.Options{ChanCap: p.ChanCap, MaxSteps: 40000},
+		Params: map[string]interface{}{"senders": p.Senders, "lines": p.Lines, "events": p.Events, "hlines": p.HLines, "slow": p.Slow, "chancap": p.ChanCap, "overlap": p.Overlap, "pings": p.Pings, "hpong": p.HPong, "server_error": p.SrvErr, "timeout0": p.Timeout0, "pause": p.Pause.String()},
+		Opt:    vx.Options{ChanCap: p.ChanCap, MaxSteps: 40000, Horizon: 24 * time.Hour},
 	}
 	total := 2 + p.Senders*p.Lines + p.Events*p.HLines + p.Pings
 	if p.HPong {
 		total += p.Events
 	}
 	sc.Main = func(env *vx.Env) {
-		c := NewClient("me", nil)
+		c := NewClient("me", func(cfg *client.Config) {
+			if p.Timeout0 {
+				cfg.Timeout = 0
+			}
+		})
 		c.HandleFunc("PRIVMSG", func(conn *client.Conn, line *client.Line) {
 			for i := 0; i < p.HLines; i++ {
 				if i%2 == 0 {
@@ -86,6 +99,13 @@ func c09Scenario(p c09Params) *explore.Scenario {
 		}
 		if !p.Overlap {
 			vx.Quiesce()
+		}
+		if p.Pause > 0 {
+			vc.StallWrites(1)
+			env.Go("server-resumes", func() {
+				vx.Sleep(p.Pause)
+				vc.StallWrites(0)
+			})
 		}
 		if p.Slow {
 			env.Go("server-reader", func() {
@@ -131,6 +151,9 @@ func c09Scenario(p c09Params) *explore.Scenario {
 			})
 		}
 		done.WaitFor(p.Senders)
+		if p.Pause > 0 {
+			vx.Sleep(p.Pause)
+		}
 		vx.Quiesce()
 		vx.Observe("ev", fmt.Sprintf("end connected=%v", c.Connected()))
 	}
@@ -504,6 +527,67 @@ func c09StmtScenario(m0, m1 int) *explore.Scenario {
 	return sc
 }
 
+// c09TwoClientsScenario: two clients in one process, each with one sender of one line, under statement-granularity
+// interleaving of package client: whatever the library keeps at package level must not carry bytes from one
+// connection to the other.
+func c09TwoClientsScenario() *explore.Scenario {
+	sc := &explore.Scenario{
+		Family: "sendstmt",
+		Name:   "sendstmt/two-clients",
+		Params: map[string]interface{}{"clients": 2},
+		Opt:    vx.Options{MaxSteps: 60000},
+	}
+	lines := [2]string{"PRIVMSG #a :from the first client, a line that is a good deal longer than the other one", "NOTICE b :second"}
+	sc.Main = func(env *vx.Env) {
+		var cs [2]*client.Conn
+		for i := range cs {
+			cs[i] = NewClient(fmt.Sprintf("me%d", i), nil)
+			if err := cs[i].Connect(); err != nil {
+				return
+			}
+			vx.Quiesce()
+			cs[i].Raw("PING :warm-up")
+			vx.Quiesce()
+		}
+		vx.StmtAllMode(true)
+		done := vx.NewCounter("senders-done")
+		for i := range cs {
+			i := i
+			env.Go(fmt.Sprintf("sender%d", i), func() { cs[i].Raw(lines[i]); done.Add(1) })
+		}
+		done.WaitFor(2)
+		vx.StmtAllMode(false)
+		vx.Quiesce()
+		vx.Observe("ev", fmt.Sprintf("end connected=%v,%v", cs[0].Connected(), cs[1].Connected()))
+	}
+	sc.Check = func(o *vx.Outcome) []explore.Finding {
+		if fs := stdOutcome(o); fs != nil {
+			return fs
+		}
+		if len(o.Conns) != 2 {
+			return []explore.Finding{{Oracle: "no-connection", Msg: "not two sockets"}}
+		}
+		var fs []explore.Finding
+		for i, vc := range o.Conns {
+			var got []string
+			for _, l := range vc.Lines() {
+				if strings.HasPrefix(l, "NICK ") || strings.HasPrefix(l, "USER ") || l == "PING :warm-up" {
+					continue
+				}
+				got = append(got, l)
+			}
+			if len(got) != 1 || got[0] != lines[i] {
+				fs = append(fs, explore.Finding{Oracle: "line-corrupted", Msg: fmt.Sprintf("client %d sent %q; its connection carries %s :: wire=%s", i, lines[i], joinQ(got), Q(vc.Transcript()))})
+			}
+		}
+		if ev := o.Log("ev"); len(ev) == 0 || ev[len(ev)-1] != "end connected=true,true" {
+			fs = append(fs, explore.Finding{Oracle: "connection-dropped", Msg: "a connection went down during the scenario"})
+		}
+		return fs
+	}
+	return sc
+}
+
 // c09LadderSession hands Raw one line of each of the given lengths over one connection and compares the wire.
 func c09LadderSession(lens []int) (oracle, msg string) {
 	line := func(n int) string {
@@ -644,7 +728,7 @@ func init() {
 	}
 	Register(&Prop{
 		ID:   "C09",
-		Rule: "2-3 concurrent user senders x 1-3 lines (alternating Raw / Privmsg), optionally a foreground handler answering 1-2 incoming events with 1-2 lines, server reading at once or through a 64-byte pipe drained line by line by a server task, queue capacity 32 / 2 / 1, senders started after or during registration; 2-4 concurrent senders of messages that SplitLen = 60 splits into 3-4 lines each (Privmsg, Notice, Ctcp, CtcpReply to different targets, mixed or all senders using the same method after a warm-up message; expected lines = what the same calls produce alone); one sender with Raw lines of every length 1..1300 and around 2048 / 4096 / 8192 bytes compared byte for byte, plus lines that begin / end in or consist of white space, lines with bytes that are not UTF-8, and the empty line; a server ERROR line that is not followed by a hang-up; two senders with one message each under statement-granularity interleaving of package client (seven method pairs, K<=2, no state cache); small harnesses are explored without any deviation bound (state cache), the rest within K<=2-3; distinct = distinct wire transcripts per scenario",
+		Rule: "2-3 concurrent user senders x 1-3 lines (alternating Raw / Privmsg), optionally a foreground handler answering 1-2 incoming events with 1-2 lines, server reading at once or through a 64-byte pipe drained line by line by a server task, queue capacity 32 / 2 / 1, senders started after or during registration; 2-4 concurrent senders of messages that SplitLen = 60 splits into 3-4 lines each (Privmsg, Notice, Ctcp, CtcpReply to different targets, mixed or all senders using the same method after a warm-up message; expected lines = what the same calls produce alone); one sender with Raw lines of every length 1..1300 and around 2048 / 4096 / 8192 bytes compared byte for byte, plus lines that begin / end in or consist of white space, lines with bytes that are not UTF-8, and the empty line; a server ERROR line that is not followed by a hang-up; Config.Timeout = 0; a server that stops reading for five virtual minutes (longer than Config.Timeout) while senders are up to 40 lines ahead of it; two senders with one message each under statement-granularity interleaving of package client (seven method pairs, K<=2, no state cache), and two clients in one process with one line each under the same interleaving; small harnesses are explored without any deviation bound (state cache), the rest within K<=2-3; distinct = distinct wire transcripts per scenario",
 		Assumptions: []string{
 			"interleavings at synchronisation/channel/socket granularity (DESIGN.md 3.8)",
 			"unbounded mode relies on the happens-before state cache; cache-on/off agreement is cross-checked at a small bound",
@@ -674,6 +758,11 @@ func init() {
 				add(c09Params{Senders: 3, Lines: 1}, unb, []int{1}, 500, false)
 				add(c09Params{Senders: 2, Lines: 1, Overlap: true}, unb, []int{1}, 500, false)
 			}
+			// Config.Timeout = 0, and a server that stops reading for five minutes while a sender is 40 lines ahead of it
+			add(c09Params{Senders: 2, Lines: 2, Timeout0: true}, b2, []int{1, 2, 3}, 60, false)
+			add(c09Params{Senders: 2, Lines: 2, Timeout0: true, Slow: true, ChanCap: 1}, b2, []int{1, 2, 3}, 60, false)
+			add(c09Params{Senders: 1, Lines: 40, Pause: 5 * time.Minute}, []explore.Budget{{0, 0}, {1, 0}}, []int{1, 2, 3}, 80, false)
+			add(c09Params{Senders: 2, Lines: 3, Pause: 5 * time.Minute, ChanCap: 2, Events: 1, HLines: 2}, b2, []int{1, 2, 3}, 60, false)
 			bs := b2
 			if tier == "thorough" {
 				bs = b3
@@ -710,6 +799,9 @@ func init() {
 			// statement-granularity interleaving of two command methods (no state cache)
 			for _, pr := range [][2]int{{2, 3}, {0, 1}, {2, 2}, {0, 0}, {4, 7}, {5, 6}, {3, 3}} {
 				jobs = append(jobs, ExploreJob("C09", ExploreSpec{Sc: c09StmtScenario(pr[0], pr[1]), Variants: []int{1, 2, 3}, Budgets: b2, Cache: false}, 40))
+			}
+			{
+				jobs = append(jobs, ExploreJob("C09", ExploreSpec{Sc: c09TwoClientsScenario(), Variants: []int{1, 2, 3}, Budgets: b2, Cache: false}, 40))
 			}
 			jobs = append(jobs, c09LadderJob())
 			// an ERROR line from a server that does not hang up afterwards: the connection is up, lines are still due
